@@ -27,7 +27,12 @@ def bookkeeping(ctx, rid):
     stores = [n for n in own_nodes(fn.node) if isinstance(n, ast.Assign) and any(isinstance(t, ast.Attribute) and t.attr == "_result" for t in n.targets)]
     # `if den > 0: result = ratio  else: result = 0` is the statement form of the conditional expression
     consts = [n for n in stores if isinstance(n.value, ast.Constant) and n.value.value == 0]
+    partner = []
     if len(stores) > 1 and len(stores) - len(consts) == 1:
+        main = [n for n in stores if n not in consts][0]
+        holder = ctx.prog.parent.get(main)
+        # the zero store is the other arm of the very `if` that guards the ratio
+        partner = [c for c in consts if isinstance(holder, ast.If) and ((holder.body == [main] and holder.orelse == [c]) or (holder.orelse == [main] and holder.body == [c]))]
         stores = [n for n in stores if n not in consts]
     if len(stores) != 1:
         ctx.undecided(rid, fn, "store of the recheck result not found")
@@ -52,7 +57,7 @@ def bookkeeping(ctx, rid):
         return
     num, den = shape
     ctx.holds(rid, fn, "result = %s / %s * 100" % (num, den), stores[0])
-    result_integrity(ctx, rid, fn, stores[0])
+    result_integrity(ctx, rid, fn, stores[0], partner)
     payload_total(ctx, rid, _feeds_result(fn, stores[0]))
     # the result is stored after the loop is drained
     sn = C.stmt_node(ctx, fn, stores[0])
@@ -95,7 +100,13 @@ def bookkeeping(ctx, rid):
                 for b, lab in inloop:
                     t = C.test_expr(b)
 
-                    def atom(x):
+                    def atom(x, depth=0):
+                        if isinstance(x, ast.Name) and depth < 3:
+                            # same = chunk == piece; if same: ...   (a local defined once, by the comparison)
+                            bl = ctx.res.bindings(fn).get(x.id, [])
+                            if len(bl) == 1 and bl[0][0] == "value" and isinstance(bl[0][1], (ast.Compare, ast.Name, ast.UnaryOp, ast.BoolOp)):
+                                return C.eval3(bl[0][1], lambda y: atom(y, depth + 1))
+                            return None
                         if isinstance(x, ast.Compare) and len(x.ops) == 1 and isinstance(x.ops[0], (ast.Eq, ast.NotEq)):
                             ids = {n.id for n in (x.left, x.comparators[0]) if isinstance(n, ast.Name)}
                             if ids == {chunk, piece}:
@@ -264,7 +275,7 @@ def reader_merkle_padding(ctx, rid):
 ROUNDERS = ("round", "int", "ceil", "floor", "trunc", "min", "max", "format", "str", "float")
 
 
-def result_integrity(ctx, rid, fn, result_store):
+def result_integrity(ctx, rid, fn, result_store, partner=()):
     """The stored percentage reaches the caller unchanged: no other store of it, nothing rounds it on the way out."""
     attr = [t.attr for t in result_store.targets if isinstance(t, ast.Attribute)][0]
     n = 0
@@ -275,7 +286,7 @@ def result_integrity(ctx, rid, fn, result_store):
                 tg = [t for t in st.targets if isinstance(t, ast.Attribute) and t.attr == attr]
             elif isinstance(st, (ast.AugAssign, ast.AnnAssign)) and isinstance(st.target, ast.Attribute) and st.target.attr == attr:
                 tg = [st.target]
-            if not tg or st is result_store:
+            if not tg or st is result_store or any(st is p_ for p_ in partner):
                 continue
             if f.cls is None or not (f.cls is fn.cls or fn.cls in ctx.prog.mro(f.cls) or f.cls in ctx.prog.mro(fn.cls)):
                 kinds = ctx.res.kinds(tg[0].value, f)
